@@ -86,6 +86,9 @@ pub struct Sim {
     pub yields: u64,
     pub yield_budget: u64,
     pub budget_exceeded: bool,
+    /// async tasks spawned with tokio::spawn (bita spawns none today)
+    pub async_tasks: Vec<exec::AsyncTask>,
+    pub next_async_id: u64,
 }
 
 /// scripted stdin: bytes and whether fd 0 is a terminal
@@ -121,6 +124,8 @@ impl Sim {
             yields: 0,
             yield_budget: 20_000_000,
             budget_exceeded: false,
+            async_tasks: Vec::new(),
+            next_async_id: 0,
         }
     }
     #[inline]
